@@ -1,0 +1,21 @@
+//go:build verif
+
+package s2
+
+// Hooks for the verification work package c06a (build tag "verif" only, no behaviour).
+
+// VerifIteratorOverCells returns an unpositioned ShapeIndexIterator over an index
+// whose sorted cell-id list is exactly cells (no shapes, no cell contents), so that
+// seek / LocatePoint / LocateCellID can be compared with their model on arbitrary
+// sorted lists of disjoint cells.
+func VerifIteratorOverCells(cells []CellID) *ShapeIndexIterator {
+	idx := NewShapeIndex()
+	idx.cells = append([]CellID(nil), cells...)
+	return NewShapeIndexIterator(idx)
+}
+
+// VerifIteratorPosition exposes ShapeIndexIterator.position.
+func VerifIteratorPosition(it *ShapeIndexIterator) int { return it.position }
+
+// VerifIteratorSeek exposes ShapeIndexIterator.seek.
+func VerifIteratorSeek(it *ShapeIndexIterator, target CellID) { it.seek(target) }
